@@ -95,41 +95,114 @@ theorem K.resume_cons (k : K) (m : Mode) (s : Sig) (b : Bool) (x : Sig) (h : k.C
         | sysc => simp; split <;> simpa [K.fresh, K.Cons] using h2
         | cont =>
           simp only []
-          exact K.runMain_cons b { k2 with frames := [] } k2.script x (by simpa [K.Cons] using h2)
+          split
+          · simpa [K.Cons] using h2
+          · exact K.runMain_cons b { k2 with frames := [] } k2.script x (by simpa [K.Cons] using h2)
 
 theorem K.send_cons (k : K) (p : Bool) (s x : Sig) (h : k.Cons x) : (k.send p s).Cons x := by
   unfold K.send K.Cons at *
   split <;> split <;> simp_all [List.count_append, List.count_cons] <;> split <;> omega
 
-theorem consStable (x : Sig) : StableB (fun d => d.k.Cons x) := by
-  refine ⟨?_, ?_, ?_, ?_, ?_, ?_, ?_⟩
-  · intro d d' hk _ h; rw [hk]; exact h
-  · intro d m b h; rw [D.kp_k]; exact K.resume_cons _ _ _ _ _ h
+theorem consStable (x : Sig) : Stable (fun d => d.k.Cons x) := by
+  refine ⟨?_, ?_, ?_, ?_, ?_, ?_, ?_, ?_⟩
+  · intro d d' hk _ _ _ h; rw [hk]; exact h
+  · intro d h _; rw [D.kp_k]; exact K.resume_cons _ _ _ _ _ h
+  · intro d m h _; rw [D.kp_k]; exact K.resume_cons _ _ _ _ _ h
   · intro d s h _; rw [D.kp_k]; exact K.resume_cons _ _ _ _ _ h
-  · intro d a h _ _; rw [D.kp_k]; exact K.resume_cons _ _ _ _ _ h
+  · intro d q0 a h _ _; rw [D.kp_k]; exact K.resume_cons _ _ _ _ _ h
   · intro d s s' rest h _; exact h
-  · intro d h; simp only [D.kres_k]; exact K.resume_cons _ _ _ _ _ h
-  · intro d p s h; exact K.send_cons _ _ _ _ h
+  · intro d p s h _; exact K.send_cons _ _ _ _ h
+  · intro d s h _; exact h
 
-end BsVerif.Sig
+/-! ### an exited debuggee has no pending signal -/
 
-namespace BsVerif.Sig
-open BsVerif.Gen.Signals
+theorem minL_none : ∀ {l : List Nat}, minL l = none → l = [] := by
+  intro l
+  cases l with
+  | nil => intro _; rfl
+  | cons a l =>
+    intro h
+    simp only [minL] at h
+    split at h <;> cases h
 
-/-! ### `resume` neither steps nor touches the breakpoint flag -/
+theorem K.dequeue_none {k : K} (h : k.dequeue = none) : k.pp = [] ∧ k.sp = [] := by
+  unfold K.dequeue at h
+  split at h
+  · cases h
+  · rename_i h1
+    split at h
+    · cases h
+    · rename_i h2
+      exact ⟨minL_none h1, minL_none h2⟩
 
-@[simp] theorem D.kp_bpOn (d : D) (m : Mode) (s : Sig) : (d.kp m s).1.bpOn = d.bpOn := by
-  cases hw : (d.k.resume m s d.bpOn).2 with
-  | sigStop a => rw [D.kp_sig hw]; simp
-  | _ => rw [D.kp_other (by simp [hw])]; simp
+theorem K.runMain_pending (b : Bool) (k : K) (l : List PEv) :
+    (K.runMain b k l).1.pp = k.pp ∧ (K.runMain b k l).1.sp = k.sp := by
+  induction l with
+  | nil => simp [K.runMain]
+  | cons e r ih =>
+    cases e with
+    | point =>
+      by_cases hb : b = true
+      · simp [K.runMain, hb, K.fresh]
+      · simp [K.runMain, hb]; simpa [hb] using ih
+    | raise s => simp [K.runMain, K.fresh, K.arrive]
+    | kill s => simp [K.runMain, K.fresh, K.arrive]
+
+/-- the debuggee exits only when nothing is pending -/
+theorem K.resume_exited (k : K) (m : Mode) (s : Sig) (b : Bool) (h : k.stop = .exited → k.pp = [] ∧ k.sp = []) :
+    (k.resume m s b).1.stop = .exited → (k.resume m s b).1.pp = [] ∧ (k.resume m s b).1.sp = [] := by
+  unfold K.resume
+  by_cases hx : k.stop = .exited
+  · simpa [hx] using h hx
+  · simp only [hx, if_false]
+    generalize (if s = 0 then (if k.stop = KStop.sysEntry then k.popFrame else k)
+      else (if k.stop = KStop.sysEntry then k.popFrame else k).deliver s) = k2
+    by_cases hst : m = .step ∧ s ≠ 0
+    · simp [hst]
+    · simp only [hst, if_false]
+      cases hd : k2.dequeue with
+      | some p => obtain ⟨a, k3⟩ := p; simp [K.arrive]
+      | none =>
+        have he := K.dequeue_none hd
+        cases m with
+        | step => simp; split <;> simp
+        | sysc => simp; split <;> simp
+        | cont =>
+          simp only []
+          split
+          · simp
+          · intro _
+            have := K.runMain_pending b { k2 with frames := [] } k2.script
+            rw [this.1, this.2]; exact he
+
+theorem exitedStable : Stable (fun d => d.k.stop = .exited → d.k.pp = [] ∧ d.k.sp = []) := by
+  refine ⟨?_, ?_, ?_, ?_, ?_, ?_, ?_, ?_⟩
+  · intro d d' hk _ _ _ h; rw [hk]; exact h
+  · intro d h _; rw [D.kp_k]; exact K.resume_exited _ _ _ _ h
+  · intro d m h _; rw [D.kp_k]; exact K.resume_exited _ _ _ _ h
+  · intro d s h _; rw [D.kp_k]; exact K.resume_exited _ _ _ _ h
+  · intro d q0 a h _ _; rw [D.kp_k]; exact K.resume_exited _ _ _ _ h
+  · intro d s s' rest h _; exact h
+  · intro d p s _ hne he
+    exact absurd (by simpa [(K.send_fields d.k p s).2.2.1] using he) hne
+  · intro d s h _; exact h
+
+theorem D.run_append (d : D) (a b : List Cmd) : d.run (a ++ b) = (d.run a).run b := by
+  induction a generalizing d with
+  | nil => rfl
+  | cons c cs ih => simp [D.run, ih]
+
+/-! ### `resume` neither piles signals up nor touches the breakpoint flag -/
 
 theorem D.resume_flags : ∀ (f : Nat) (d : D),
-    (D.resume f d).1.stepArr = d.stepArr ∧ (D.resume f d).1.bpOn = d.bpOn := by
+    (D.resume f d).1.piled = d.piled ∧ (D.resume f d).1.bpOn = d.bpOn := by
   intro f
   induction f with
   | zero => intro d; simp [D.resume]
   | succ f ih =>
     intro d
+    have hk : ({ d with queue := [] }.kp .cont (d.queue.headD 0)).1.piled = d.piled :=
+      D.kp_piled_nil (d := { d with queue := [] }) .cont (d.queue.headD 0) rfl
     unfold D.resume
     split
     · simp
@@ -137,11 +210,11 @@ theorem D.resume_flags : ∀ (f : Nat) (d : D),
       split
       · split
         · have := ih ({ d with queue := [] }.kp .cont (d.queue.headD 0)).1
-          simpa using this
-        · simp
-      all_goals simp
+          rw [this.1, this.2, hk]; simp
+        · exact ⟨hk, by simp⟩
+      all_goals exact ⟨hk, by simp⟩
 
-theorem D.afterStep_flags (d : D) : d.afterStep.1.stepArr = d.stepArr ∧ d.afterStep.1.bpOn = d.bpOn := by
+theorem D.afterStep_flags (d : D) : d.afterStep.1.piled = d.piled ∧ d.afterStep.1.bpOn = d.bpOn := by
   have := D.resume_flags (D.resFuel d) d
   unfold D.afterStep
   simp only []
@@ -153,7 +226,7 @@ def burstCmd : Cmd → Bool
   | _ => false
 
 theorem D.exec_burst_flags (d : D) (c : Cmd) (hc : burstCmd c = true) (hb : d.bpOn = false) :
-    (d.exec c).1.stepArr = d.stepArr ∧ (d.exec c).1.bpOn = false := by
+    (d.exec c).1.piled = d.piled ∧ (d.exec c).1.bpOn = false := by
   cases c with
   | send p s => simp only [D.exec]; split <;> (try split) <;> simp [hb]
   | cont =>
@@ -168,13 +241,8 @@ theorem D.exec_burst_flags (d : D) (c : Cmd) (hc : burstCmd c = true) (hb : d.bp
       · simp [hb]
   | _ => simp [burstCmd] at hc
 
-theorem D.run_append (d : D) (a b : List Cmd) : d.run (a ++ b) = (d.run a).run b := by
-  induction a generalizing d with
-  | nil => rfl
-  | cons c cs ih => simp [D.run, ih]
-
 theorem D.run_burst_flags (burst : List Cmd) : ∀ (d : D), (∀ c ∈ burst, burstCmd c = true) → d.bpOn = false →
-    (d.run burst).stepArr = d.stepArr ∧ (d.run burst).bpOn = false := by
+    (d.run burst).piled = d.piled ∧ (d.run burst).bpOn = false := by
   induction burst with
   | nil => intro d _ hb; exact ⟨rfl, hb⟩
   | cons c cs ih =>
